@@ -215,6 +215,13 @@ def slot_strings(k):
             for k in range(3):
                 pos = total // 2 - 1 + k
                 out.add(('w' * pos + pair + 'v' * total)[:total] + ' end')
+    # ordinary long paragraphs (1 600 - 6 000 characters of words) with ONE character that needs looking at near the end, at the start,
+    # or nowhere: the number of recursion steps must follow the number of escapes, not the length of the text
+    S = 'The Minister may, by notice in the Gazette, determine the fees payable under this section. '
+    for reps in (18, 21, 40, 66):
+        for tail in ('The fees are payable by the owner and/or the occupier.', 'See 2020_01_01 {draft} *', 'a\\b', 'no marker at all', 'x}'):
+            out.add(S * reps + tail)
+        out.add('and/or ' + S * reps + 'end')
     return sorted(out)
 
 def _slot(args):
@@ -381,7 +388,8 @@ def section_cases(rng, n):
     ss = para_strings(rng, 2 * n + 2)
     out = [(stages.URIS[0], 'chp_2', 'SUBSEC', '(3A)', 'PART 1 - **x** {{^y}} \\ //z', 'SUBHEADING P{a b} __u__ {{*r}}')]
     for i in range(n):
-        out.append((rng.choice(stages.URIS), rng.choice(stages.PREFIXES), kws[i % len(kws)], rng.choice(SEC_NUMS), ss[2 * i + 1], ss[2 * i + 2]))
+        # (every third one without a heading: C05/C06_section_round_trip_no_heading)
+        out.append((rng.choice(stages.URIS), rng.choice(stages.PREFIXES), kws[i % len(kws)], rng.choice(SEC_NUMS), ss[2 * i + 1] if i % 3 else None, ss[2 * i + 2]))
     return out
 
 def _section(args):
@@ -390,8 +398,8 @@ def _section(args):
     tag = absdoc.HIER[kw]
     G = eidlib.tables()
     cand = (prefix + '__' if prefix else '') + G.aliases.get(tag, tag) + '_' + eidlib.clean_num_ref(n)
-    x = ['E', tag, [['eId', cand]], [['E', 'num', [], [['T', n]]], ['E', 'heading', [], [['T', h]]],
-                                     ['E', 'content', [], [['E', 'p', [['eId', cand + '__p_1']], [['T', t]]]]]]]
+    x = ['E', tag, [['eId', cand]], [['E', 'num', [], [['T', n]]]] + ([['E', 'heading', [], [['T', h]]]] if h is not None else []) +
+                                    [['E', 'content', [], [['E', 'p', [['eId', cand + '__p_1']], [['T', t]]]]]]]
     text = impl.unparse_sx(x)
     if not isinstance(text, str):
         return ('bad', 'unparse of a hierarchical element raised %r' % (text,), None)
@@ -624,7 +632,7 @@ LEVEL_TEXT = ('Partial. Proved on the tables regenerated from akn_text.xsl and a
               '(C06_written_text_parses_as_text); at block level, the line written for a paragraph is dispatched by hier_block_element to rule line - all '
               'keyword blocks fail on it, by a computed FIRST analysis of the regenerated grammar against the stylesheet\'s list '
               '(C06_escaped_first_text_is_a_line); composed: the first text of a paragraph as written is accepted by hier_block_element through rule line and '
-              'becomes a p with text children only, spelling the text (C06_written_first_text_is_paragraph); and the round trip of a paragraph through the WHOLE pipeline model, both directions: for every known FRBR URI, every eId prefix and every text s without tab or line break, without blanks at its ends and of XML-legal characters, convert(unparse(<p eId=prefix__p_1>s</p>)) is that very element - stylesheet model, pre_parse, grammar, to_dict, XML builder, footnote resolution, normalisation, eId generation (C06_paragraph_round_trip; its instances are run on the implementation on every run); the same for the basic hierarchical element - keyword line with num and heading, blank line, indented paragraph - for each of the 34 keywords\' elements, every num without blank, dash or backslash, every such heading and text: whatever heading and text spell, the written text converts back to that very element (C06_section_round_trip; instances on every run). The string '
+              'becomes a p with text children only, spelling the text (C06_written_first_text_is_paragraph); and the round trip of a paragraph through the WHOLE pipeline model, both directions: for every known FRBR URI, every eId prefix and every text s without tab or line break, without blanks at its ends and of XML-legal characters, convert(unparse(<p eId=prefix__p_1>s</p>)) is that very element - stylesheet model, pre_parse, grammar, to_dict, XML builder, footnote resolution, normalisation, eId generation (C06_paragraph_round_trip; its instances are run on the implementation on every run); the same for the basic hierarchical element - keyword line with num and heading, blank line, indented paragraph - for each of the 34 keywords\' elements, every num without blank, dash or backslash, every such heading and text: whatever heading and text spell, the written text converts back to that very element (C06_section_round_trip, and C06_section_round_trip_no_heading for the element without a heading; instances on every run). The string '
               'templates and all element templates are modelled in Gallina (Model/Unparse.v, Model/UnparseDoc.v) and tied to libxslt running the stylesheet by the xslstr and unp stages. That escaped text re-parses as the same '
               'text is decided by the oracles on the implementation: exhaustive strings of up to 3 atoms of the adversarial alphabet x 22 text positions, '
               'instances of the paragraph theorem, every keyword x 7 block positions x 6 continuations, random poisoning of generated documents, elements without syntax (no text dropped), '
